@@ -79,6 +79,10 @@ func (sp *SAMLServiceProvider) buildAuthnRequest(includeSig bool) (*etree.Docume
 	}
 
 	doc := etree.NewDocument()
+	// Write CR (and TAB/LF in attribute values) as character references: a recipient's
+	// XML parser would otherwise normalize them and the signed content would change.
+	doc.WriteSettings.CanonicalText = true
+	doc.WriteSettings.CanonicalAttrVal = true
 
 	// Only POST binding includes <Signature> in <AuthnRequest> (includeSig)
 	if sp.SignAuthnRequests && includeSig {
@@ -340,6 +344,10 @@ func (sp *SAMLServiceProvider) buildLogoutRequest(includeSig bool, nameID string
 	nameId.SetText(sessionIndex)
 
 	doc := etree.NewDocument()
+	// Write CR (and TAB/LF in attribute values) as character references: a recipient's
+	// XML parser would otherwise normalize them and the signed content would change.
+	doc.WriteSettings.CanonicalText = true
+	doc.WriteSettings.CanonicalAttrVal = true
 
 	if includeSig {
 		signed, err := sp.SignLogoutRequest(logoutRequest)
